@@ -40,7 +40,7 @@ type Case struct {
 	Ops  []Op `json:"ops"`
 }
 
-var vias = []string{"id", "op", "lit", "dot", "call", "add", "index", "qual", "tag", "tag", "caseblock", "defaultblock"}
+var vias = []string{"id", "op", "lit", "dot", "call", "add", "index", "qual", "tag", "tag", "caseblock", "defaultblock", "casehead", "defaulthead", "blockafter", "blockafter"}
 
 func genCase(maxOps int) func(t *rapid.T) Case {
 	return func(t *rapid.T) Case {
@@ -162,7 +162,31 @@ func check(c Case) error {
 	counter := 0
 	next := func() string { counter++; return fmt.Sprintf("t%d", counter) }
 	// apply appends one token-producing call and returns the tokens it must add
-	apply := func(s *jen.Statement, via string, n int) []string {
+	// endsInCase: the statement's own last item is a Case group or the default keyword (then a Block appended
+	// next renders as a clause body, without braces); a fresh clone's only item is the statement it wraps
+	endsInCase := map[*jen.Statement]bool{}
+	var apply func(s *jen.Statement, via string, n int) []string
+	apply0 := func(s *jen.Statement, via string, n int) []string {
+		switch via {
+		case "casehead":
+			a := next()
+			s.Case(jen.Id(a))
+			return []string{"case", a, ":"}
+		case "defaulthead":
+			s.Default()
+			return []string{"default", ":"}
+		case "blockafter":
+			a := next()
+			inCase := endsInCase[s]
+			s.Block(jen.Id(a))
+			if inCase {
+				return []string{a}
+			}
+			return []string{"{", a, "}"}
+		}
+		return nil
+	}
+	apply1 := func(s *jen.Statement, via string, n int) []string {
 		switch via {
 		case "id":
 			a := next()
@@ -216,6 +240,20 @@ func check(c Case) error {
 			return toks
 		}
 		panic("via " + via)
+	}
+	apply = func(s *jen.Statement, via string, n int) []string {
+		before := len(*s)
+		var toks []string
+		switch via {
+		case "casehead", "defaulthead", "blockafter":
+			toks = apply0(s, via, n)
+		default:
+			toks = apply1(s, via, n)
+		}
+		if len(*s) != before {
+			endsInCase[s] = via == "casehead" || via == "defaulthead"
+		}
+		return toks
 	}
 	orig := &jen.Statement{}
 	list := []*st{{s: orig, parent: -1}}
@@ -421,6 +459,7 @@ func check(c Case) error {
 				list[i].own = append(list[i].own, apply(list[i].s, "id", 0)...)
 			} else {
 				list[i].s.Op("+").Add(list[j].s)
+				endsInCase[list[i].s] = false
 				list[i].own = append(list[i].own, "+", fmt.Sprintf("\x00%d", j))
 			}
 		case "append":
@@ -515,7 +554,7 @@ func classify(r *hx.Run, c Case) {
 func TestC20(t *testing.T) {
 	r := hx.Start(t, "C20")
 	defer r.Finish(t)
-	r.Rule("rapid-generated histories of append/clone operations (appends via Id, Op, Lit, Dot, Call, Index, Qual, Tag, Case+Block, Default+Block, Add with 0..9 items, Add of another statement of the history; chains of 20..130 clones of clones; clones also taken of the callback parameter inside Do, with appends before and after in the callback; every statement is rendered on its own through a fresh File and, as a line of one File that holds all statements and is rendered after every step); non-trivial = the history has a clone taken when its original had >= 3 items, followed by appends to both the original and that clone; distinct by the full history")
+	r.Rule("rapid-generated histories of append/clone operations (appends via Id, Op, Lit, Dot, Call, Index, Qual, Tag, Case+Block, Default+Block, Case / Default alone and a Block appended later, Add with 0..9 items, Add of another statement of the history; chains of 20..130 clones of clones; clones also taken of the callback parameter inside Do, with appends before and after in the callback; every statement is rendered on its own through a fresh File and, as a line of one File that holds all statements and is rendered after every step); non-trivial = the history has a clone taken when its original had >= 3 items, followed by appends to both the original and that clone; distinct by the full history")
 	r.Assume("go/scanner token stream of a NoFormat File render is taken as 'the rendering' of a statement")
 	maxOps := 60
 	if r.Thorough() {
